@@ -7,3 +7,4 @@ import Dtr.Props.C17
 #print axioms Dtr.C17_reset_replays
 #print axioms Dtr.C17_reset_stmt
 #print axioms Dtr.C17_as_literal
+#print axioms Dtr.C17_as_if_literals
